@@ -38,6 +38,10 @@ def norm(e, clone_transparent=False):
     if t == 'fld' and isinstance(e[1], tuple) and e[1] and e[1][0] == 'down' and str(e[2]) == '0':
         inner = norm(e[1][1], clone_transparent)
         var = e[1][2]
+        # a borrowed option has the payload of the option: (o.as_ref() as Some).0 = (o as Some).0
+        for _ in range(2):
+            if var == 'Some' and inner[0] == 'call' and inner[1].endswith(('Option::as_ref', 'Option::as_mut', 'Option::as_deref', 'Option::as_deref_mut')) and len(inner[2]) == 1:
+                inner = inner[2][0]
         # the success payload passes unchanged through error adapters: (r.map_err(f) as Ok).0 = (r as Ok).0, (o.ok_or(e) as Ok).0 = (o as Some).0
         for _ in range(3):
             if var == 'Ok' and inner[0] == 'call' and inner[1].endswith('Result::map_err') and len(inner[2]) == 2:
